@@ -376,6 +376,11 @@ def main():
         add(s_, ("equal_states",))
         add(s_, ("dispatch",))
     add("exact", ("vacuum",))
+    # scaling / Galilean equivariance of van_leer by induction over the
+    # Newton iteration (initial guess, one pass from a symbolic iterate,
+    # final averaging), see vf/props/c15_step.py
+    units.append(("vf.props.c15_step", "unit_van_leer_step",
+                  dict(timeout_ms=60000 if t == "quick" else 300000)))
     rep.bounds = dict(solvers=SOLVERS, niter_iterative=2,
                       symmetry_decided_for=["non_diffusive", "roe", "llxf",
                                             "hllc_ball", "hllsy",
@@ -393,6 +398,10 @@ def main():
                           "hunt: the claim is evaluated at a model of the "
                           "path condition and on lines through it"),
                       query_timeout_ms=cap, unit_deadline_s=dl,
+                      van_leer_step="init / one Newton pass from an arbitrary "
+                      "iterate P > 0 / final averaging, cut from the AST of "
+                      "van_leer; scaling factor k > 0 and velocity shift c "
+                      "symbolic; any niter by induction",
                       numeric_domain="exact reals; sqrt = non-negative root, "
                       "pow uninterpreted")
     rep.assumptions = ["floats as reals (rounding outside the claim)",
@@ -402,10 +411,12 @@ def main():
                        "printf shadowed by a no-op"]
     rep.outside = ["more Newton iterations than the stated niter",
                    "IEEE rounding",
-                   "Galilean shift / pressure-density scaling of the "
-                   "iterative solvers and the exact solver's residual "
-                   "tolerance (pow with a symbolic exponent is uninterpreted; "
-                   "not decidable here)",
+                   "Galilean shift / pressure-density scaling of the exact "
+                   "solver and its residual tolerance (pow with a symbolic "
+                   "exponent is uninterpreted; not decidable here); for "
+                   "van_leer they are decided by the inductive step unit "
+                   "under the hypotheses that the pressure floor smallp "
+                   "never binds and no divisor vanishes",
                    "reflection symmetry of hllc, hll_ball, ducowicz, van_leer "
                    "and exact in the quick tier (NRA queries exceed the cap; "
                    "attempted in the thorough tier and reported undecided "
